@@ -1034,14 +1034,33 @@ class Prop(Check):
             if res[j][0] == "mm" and res[i] != res[j]:
                 return (f"C26_cache_hit_until: call #{j} {case['ops'][j]} answered {res[j]} and the calls in between spare "
                         f"that entry, but the argument-less call #{i} {case['ops'][i]} answered {res[i]}")
-        for i, uid in out["um"]:
+        def single(i, uid, thm, what):
+            """a single-language request (by name or by file) resolved by the history to descriptor uid"""
+            op = case["ops"][i]
             if uid is None:
                 if res[i] != ["reg_error"]:
-                    return f"C26_mm_for_file: no unique live language accepts {case['ops'][i][1]!r}, call #{i} answered {res[i]}"
-            elif res[i][0] == "mm" and not owned(uid, res[i][1]):
-                return f"C26_mm_for_file: call #{i} {case['ops'][i]} resolves to descriptor {uid}, answered {res[i]}"
-            elif res[i][0] not in ("mm", "reg_error", "type_error", "other"):
-                return f"C26_mm_for_file: call #{i} answered {res[i]}"
+                    return f"{thm}: {what}, call #{i} {op} answered {res[i]}"
+                return None
+            if res[i][0] == "mm":
+                m = res[i][1]
+                if not owned(uid, m):
+                    return f"{thm}: call #{i} {op} resolves to descriptor {uid}, answered {res[i]} (not that language's)"
+                if op[-1] != 0 and m[0] == "made":
+                    earlier = [x for r in res[:i] if r[0] in ("mm", "mms") for x in ([r[1]] if r[0] == "mm" else r[1])]
+                    if m[3] != op[-1] or any(x[0] == "made" and x[1] == m[1] for x in earlier):
+                        return (f"C26_cache_fresh: call #{i} {op} carries keyword arguments for the factory language {uid}, "
+                                f"answered {res[i]} (not fresh from these arguments)")
+            elif res[i][0] not in ("reg_error", "type_error", "other") or kind.get(uid) in ("f",) or isinstance(kind.get(uid), int):
+                return f"{thm}: call #{i} {op} resolves to the usable descriptor {uid}, answered {res[i]}"
+            return None
+        for i, uid in out["um"]:
+            f = single(i, uid, "C26_mm_for_file", f"no unique live language accepts {case['ops'][i][1]!r}")
+            if f:
+                return f
+        for i, uid in out["own"]:
+            f = single(i, uid, "C26_cache_not_stale", f"no live language is named {case['ops'][i][1]!r} up to case")
+            if f:
+                return f
         for i, uids in out["mms"]:
             usable = all(kind.get(u) not in ("b", "n") for u in uids)
             if usable != (res[i][0] == "mms"):
